@@ -304,3 +304,77 @@ func stopLossReconfEntry() *cat.Strat {
 		},
 		Warm: func([]float64) int { return inner.Warm(icfg) }}
 }
+
+// c09FactoryIsolation: the values handed out by the factories that build every ordered pair (and by the registries) are
+// independent instances as far as their OWN configuration goes (they share the base strategies by design): extending or
+// replacing the members of one of them leaves every other one as it was - same exported members, same results.
+func c09FactoryIsolation(c *core.Ctx) {
+	words := [][]strategy.Action{
+		{strategy.Buy, strategy.Hold, strategy.Sell, strategy.Buy, strategy.Hold, strategy.Sell},
+		{strategy.Hold, strategy.Buy, strategy.Buy, strategy.Sell, strategy.Sell, strategy.Buy},
+		{strategy.Sell, strategy.Sell, strategy.Buy, strategy.Hold, strategy.Buy, strategy.Hold},
+		{strategy.Buy, strategy.Buy, strategy.Hold, strategy.Sell, strategy.Hold, strategy.Buy},
+	}
+	never := func() strategy.Strategy { return &stubStrategy{word: make([]strategy.Action, 6)} } // holds for ever
+	snaps := closeSnaps([]float64{1, 2, 4, 3, 2, 4})
+	factories := []struct {
+		name string
+		f    func([]strategy.Strategy) []strategy.Strategy
+	}{
+		{"strategy.AllAndStrategies", strategy.AllAndStrategies},
+		{"strategy.AllSplitStrategies", strategy.AllSplitStrategies},
+	}
+	for _, fc := range factories {
+		for nb := 2; nb <= 4; nb++ {
+			mk := func() []strategy.Strategy {
+				bases := make([]strategy.Strategy, nb)
+				for i := range bases {
+					bases[i] = &stubStrategy{word: words[i]}
+				}
+				return fc.f(bases)
+			}
+			ref0 := mk()
+			var before []string
+			for _, s := range ref0 {
+				r := RunStrategy(s, snaps, 0, mc.Options{})
+				c.Executions++
+				before = append(before, fmt.Sprint(r.Actions, r.Healthy()))
+			}
+			for j := range ref0 {
+				batch := mk()
+				v := reflect.ValueOf(batch[j])
+				if v.Kind() != reflect.Ptr || v.Elem().Kind() != reflect.Struct {
+					continue
+				}
+				stratT := reflect.TypeOf((*strategy.Strategy)(nil)).Elem()
+				for fi := 0; fi < v.Elem().NumField(); fi++ {
+					f := v.Elem().Field(fi)
+					if !v.Elem().Type().Field(fi).IsExported() || !f.CanSet() {
+						continue
+					}
+					switch {
+					case f.Kind() == reflect.Slice && f.Type().Elem() == stratT:
+						f.Set(reflect.Append(f, reflect.ValueOf(never()))) // and.Strategies = append(and.Strategies, extra)
+					case f.Kind() == reflect.Interface && f.Type() == stratT:
+						f.Set(reflect.ValueOf(never()))
+					}
+				}
+				c.States++
+				c.Evaluations++
+				c.Nontrivial++
+				for i, s := range batch {
+					if i == j {
+						continue
+					}
+					r := RunStrategy(s, snaps, 0, mc.Options{})
+					c.Executions++
+					c.Transitions += int64(r.Res.Events)
+					if got := fmt.Sprint(r.Actions, r.Healthy()); got != before[i] {
+						c.Fail("", fmt.Sprintf("%s over %d strategies: after the members of the strategy at index %d (%s) were extended / replaced, the untouched strategy at index %d (%s) returns %s, before %s", fc.name, nb, j, batch[j].Name(), i, s.Name(), got, before[i]), map[string]any{"factory": fc.name, "inputs": nb, "modified": j, "affected": i})
+						break
+					}
+				}
+			}
+		}
+	}
+}
